@@ -302,6 +302,10 @@ class Models:
         R("Option::cloned", m_opt_copied)
         R("Option::unwrap_or_else", lambda ex, st, fr, c, a, d, r: fork_enum(ex, st, a[0], {
             1: lambda s, f: ex.finish_call(s, d, r, f[0]), 0: lambda s, f: ex.call_closure(s, a[1], [], d, r)}))
+        R("Result::is_ok_and", lambda ex, st, fr, c, a, d, r: fork_enum(ex, st, a[0], {
+            0: lambda s, f: ex.call_closure(s, a[1], [f[0]], d, r), 1: lambda s, f: ex.finish_call(s, d, r, VBool(False))}))
+        R("Result::is_err_and", lambda ex, st, fr, c, a, d, r: fork_enum(ex, st, a[0], {
+            1: lambda s, f: ex.call_closure(s, a[1], [f[0]], d, r), 0: lambda s, f: ex.finish_call(s, d, r, VBool(False))}))
         R("Result::is_ok", lambda ex, st, fr, c, a, d, r: VBool(optval(st, a[0]).disc == 0))
         R("Result::is_err", lambda ex, st, fr, c, a, d, r: VBool(optval(st, a[0]).disc == 1))
         R("Result::err", lambda ex, st, fr, c, a, d, r: fork_enum(ex, st, a[0], {
